@@ -47,6 +47,15 @@ def run_shared(chk, tier, own):
                     tid += 1
                     events.append(indx.file_event(IndxIO, tid, arity, common, ents, str(wd), cuts=False, rowdtype=rdt))
                     meta[tid] = {"kind": "file", "arity": arity, "common": common, "ents": ents, "rowid_word_size": int(np.dtype(rdt).itemsize)}
+            # ... and the boundary of the length word itself: 255 row ids under one-byte words have a file, 256 (every id the
+            # word can express) have none - the writer must refuse rather than write a count that wrapped
+            for arity, first, rows in ((1, (7,), list(range(255))), (1, (7,), list(range(1, 256))), (1, (7,), list(range(256))),
+                                       (2, (7, 0), list(range(256))), (1, (300,), list(range(0, 254)))):
+                for others in ([], [((9,) * arity, [1, 2])], [((2,) * arity, [3]), ((9,) * arity, [])]):
+                    ents = [(first, rows)] + others if tid % 2 else others + [(first, rows)]
+                    tid += 1
+                    events.append(indx.file_event(IndxIO, tid, arity, 0, ents, str(wd), cuts=False, rowdtype=np.uint8))
+                    meta[tid] = {"kind": "file", "arity": arity, "common": 0, "ents": "(%d row ids under 1-byte words)" % len(rows), "rowid_word_size": 1}
         if own in ("C10", "C11", "C12"):
             # the same writer used from several threads at once: every file is still the layout of its own data (and its
             # size field that of its own payload - a smaller one would let torn prefixes pass)
